@@ -468,6 +468,18 @@ class Check:
         return 1 if self.violations else 0
 
 
+def run_harness(cmd, outp, timeout=1800, env=None):
+    """run a recording harness; a crash / non-zero exit of the harness becomes a Crash trace line (which no
+    specification action accepts) instead of an infrastructure error: the harnesses run clean on the unchanged tree"""
+    rc, out = sh(cmd, timeout=timeout, check=False, env=env)
+    lines = [l for l in open(outp).read().splitlines() if l] if os.path.exists(outp) else []
+    if lines and not lines[-1].endswith('}'):
+        lines = lines[:-1]                 # truncated last line
+    if rc != 0:
+        lines.append(json.dumps({'e': 'Crash', 'during': os.path.basename(cmd[0]).split('-')[0], 'rc': rc, 'msg': out[-200:]}))
+    return lines
+
+
 def hexbytes(h):
     return list(bytes.fromhex(h))
 
